@@ -1013,6 +1013,26 @@ def judge_input(c, steps):
     return None
 
 
+def witness_restart_zero_mean():
+    """W10: one periodic variable, 2 bins, minSamples 0, fullSamples 1, same-step forces: one sample 2 in bin 0 and one sample 4 in
+    bin 1 (estimates -2 and -4, mean -3); the state is saved (text), a new instance loads it and re-executes the step; the force
+    must be -4 - (-3) = -1 in bin 1 and -2 - (-3) = +1 in bin 0 (probed at repeated steps, which add no sample)."""
+    v = _v1(periodic=True, P=2.0, c=1.0)
+    c = _c1("W10", v, [(0.5, 0.0, False), (0.5, 2.0, False), (1.5, 4.0, False), (1.5, 0.0, False), (0.5, 0.0, True), (1.5, 0.0, True)],
+            same=True, apply=True, full=1, min=0)
+    c["steps"][3]["event"] = {"kind": "restart", "fmt": "text"}
+    return c
+
+
+def judge_restart_zero_mean(c, steps):
+    f1, f0, f1b = steps[3]["cf"][0], steps[4]["cf"][0], steps[5]["cf"][0]
+    if f1 != -1.0 or f0 != 1.0 or f1b != -1.0:
+        return ("1-D periodic ABF, 2 bins, samples 2 in bin 0 and 4 in bin 1 (estimates -2, -4, mean over the bins -3), state saved and loaded by a new instance: "
+                "the force must be -4 + 3 = -1 in bin 1 and -2 + 3 = +1 in bin 0; after the restart the implementation applies %s in bin 1, %s in bin 0, %s in bin 1 "
+                "(sum over the period %s): the zero-mean term is not the mean of the grids that were read" % (f1, f0, f1b, f0 + f1b))
+    return None
+
+
 WITNESSES = ((witness_zero_total, "sample:subtractAppliedForce-zero-total-force", judge_zero_total),
              (witness_zero_total_abf, "sample:subtractAppliedForce-zero-total-force", judge_zero_total_abf),
              (witness_value_zero, "sample:force-dropped-at-value-zero", judge_value_zero),
@@ -1023,7 +1043,8 @@ WITNESSES = ((witness_zero_total, "sample:subtractAppliedForce-zero-total-force"
              (witness_scaled, "sample:scaledBiasingForce-unscaled-force-subtracted", judge_scaled),
              (witness_toggle, "sample:applyBias-switched-stale-applied-force", judge_toggle),
              (witness_hidej_switched, "sample:hideJacobian-applyBias-switched", judge_hidej_switched),
-             (witness_input, "sample:inputPrefix-data", judge_input))
+             (witness_input, "sample:inputPrefix-data", judge_input),
+             (witness_restart_zero_mean, "force:periodic-zero-mean", judge_restart_zero_mean))
 
 
 # ------------------------------------------------------------------------------- running
